@@ -6,9 +6,12 @@ plus ``AsyncTCPNetworkClient`` for the healthy TCP clients, all on ``SimEventLoo
 Stub: sockets/network/selector/clock, the faulty client (a scripted raw peer) and the request handler (scripted:
 answers ``R:<request>``; raises the planned exception once at the planned hook position for the faulty client).
 
-Transport variants: the TCP harness is parameterised by a ``Variant`` object (server kwargs, healthy-client kwargs,
-raw faulty-peer factory, set-up fault kinds).  ``PlainTCP`` is the only one here; a TLS variant plugs in by adding
-a ``Variant`` subclass to ``TCP_VARIANTS`` and a ``Harness`` entry (nothing else in the module depends on the transport).
+Transport variants: the TCP harness is parameterised by a ``Variant`` object created per run (server kwargs,
+healthy-client kwargs, raw faulty-peer factory, set-up fault kinds, link swarm, "set-up cannot have completed" rule).
+``PlainTCP`` and ``TLSTCP`` (server ``ssl=``; healthy clients = real ``AsyncTCPNetworkClient(ssl=...)``; faulty client =
+reference ``vsim.tls.TLSPeer``; extra set-up faults: garbage instead of a ClientHello, stalled handshake -> handshake
+timeout, FIN / RST at a byte offset inside or right after the handshake).  Extra TLS oracle clause: no handler hook ran
+for a connection whose handshake cannot have completed (the server saw fewer bytes than the client's whole handshake).
 
 Oracle (exactly the property statement): serve_forever is still running; every healthy client got the correct
 answer to every request (before, during and after the fault, plus one request on a connection opened after the
@@ -57,17 +60,20 @@ RULE = (
     "on_connection generator before/after its yield, handle before first yield, after n-th request before/after the answer, "
     "while handling a thrown parse error or yielded-timeout error, on_disconnection} x TCP set-up fault {getpeername ENOTCONN "
     "on the accepted socket, setsockopt error inside connect_accepted_socket (ENOTCONN/EINVAL/ECONNRESET), peer RST right "
-    "after connect, peer FIN right after connect} x handle-generator length {1,2,3,unbounded} x protocol {copy, buffered} x link "
-    "fragmentation/delay; a third of the runs have no handler/set-up fault"
+    "after connect, peer FIN right after connect; TLS harness (TLS 1.2/1.3 server, real TLS clients, reference-TLS faulty peer) adds: "
+    "garbage instead of a ClientHello, stalled handshake -> handshake timeout, FIN or RST after k bytes of the client's handshake "
+    "(k in record header / ClientHello / its end / second flight / exact end / application data)} x handle-generator length "
+    "{1,2,3,unbounded} x protocol {copy, buffered} x link fragmentation/delay; a third of the runs have no handler/set-up fault"
 )
 COMPONENTS_REAL = [
     "easynetwork.servers.async_tcp / async_udp / misc / _base",
     "easynetwork.lowlevel.api_async.servers.stream / datagram",
     "easynetwork.lowlevel.api_async.backend._asyncio (listener, accepted socket factory, stream/datagram transports, tasks)",
     "easynetwork.clients.async_tcp (healthy TCP clients)",
+    "easynetwork.lowlevel.api_async.transports.tls (AsyncTLSListener, AsyncTLSStreamTransport) + OpenSSL via ssl, both ends",
     "asyncio selector event loop, transports, TaskGroup",
 ]
-COMPONENTS_STUB = ["SimSocket/SimNet/SimSelector/virtual clock", "faulty client = scripted raw peer", "healthy UDP clients = injected datagrams", "request handler = scripted (part of the workload)"]
+COMPONENTS_STUB = ["SimSocket/SimNet/SimSelector/virtual clock", "faulty client = scripted raw peer (TLS: vsim.tls.TLSPeer, stdlib ssl over MemoryBIO)", "healthy UDP clients = injected datagrams", "request handler = scripted (part of the workload)"]
 ASSUMPTIONS = [
     "a reset right after accept is modelled as getpeername()->ENOTCONN (Linux) or setsockopt()->ENOTCONN/EINVAL/ECONNRESET (BSD/macOS) on the accepted socket, or as ECONNRESET on the first recv",
     "service_init faults are excluded (server-wide by documentation)",
@@ -181,7 +187,7 @@ def _draw_plan(world: World, name: str, positions: tuple[str, ...], setups: tupl
     if setups and kind >= 2:
         p.setup = setups[world.choose("f.setup", len(setups))]
         p.setup_errno = (errno.ENOTCONN, errno.EINVAL, errno.ECONNRESET)[world.choose("f.setup_errno", 3)]
-        p.setup_k = world.choose("f.setup_k", 8)
+        p.setup_k = world.choose("f.setup_k", 10)
     if kind <= 2 or not setups:
         p.position = positions[world.choose("f.pos", len(positions))]
         p.exc = EXC_KINDS[world.choose("f.exc", len(EXC_KINDS))]
@@ -443,10 +449,23 @@ class _TLSRawPeer:
         self.sock = sock
         self.tls = TLSPeer(world, sock, server_side=False, version=version)
         self.tls.auto_close_reply = True  # answer the server's close_notify so that its graceful close is prompt
+        # application data is held back here (not in the engine) until the handshake is done, so that TLSPeer.hs_end
+        # counts handshake bytes only
+        self.backlog: list[bytes] = []
+        self.tls.on_handshake_done = self._hs_done
+
+    def _hs_done(self) -> None:
+        pending, self.backlog = self.backlog, []
+        for data in pending:
+            self.write(data)
 
     def write(self, data: bytes) -> None:
-        if not self.tls.closed:
-            self.tls.write(data)  # queued by the engine until the handshake is done
+        if self.tls.closed:
+            return
+        if self.tls.hs_end is None:
+            self.backlog.append(data)
+        else:
+            self.tls.write(data)
 
     def fin(self) -> None:
         if self.tls.closed:
@@ -476,9 +495,10 @@ class TLSTCP(Variant):
     setups = ("getpeername", "setsockopt", "reset", "close", "garbage", "stall", "fin_mid", "rst_mid", "garbage", "fin_mid", "rst_mid", "stall")
     HANDSHAKE_TIMEOUT = 20.0  # virtual seconds; far above the slowest link drawn below (~6 s for a full handshake)
     SHUTDOWN_TIMEOUT = 2.0
-    # byte offsets in the client's handshake stream: inside the record header, inside the ClientHello, around its end,
-    # inside / at the end of the client's second flight (TLS 1.3: CCS+Finished; 1.2: CKE+CCS+Finished), beyond it
-    OFFSETS = (1, 5, 60, 200, 260, 300, 340, 600)
+    # byte offsets in the client's handshake stream (measured with the fixture: TLS 1.3 ClientHello 238 + CCS/Finished 80
+    # = 318; TLS 1.2 ClientHello 149 + CKE/CCS/Finished 93 = 242): inside the record header, inside the ClientHello, at
+    # its end, inside the second flight, exactly at the end of the handshake, in the application data
+    OFFSETS = (1, 5, 60, 149, 200, 238, 242, 300, 318, 600)
 
     def __init__(self, world: World):
         super().__init__(world)
